@@ -891,4 +891,27 @@ def rule_o(ctx: Ctx) -> None:
                 '`name not in self.base_attributes` (or no base).')
 
 
-RULES = [rule_a, rule_b, rule_c, rule_d, rule_e, rule_f, rule_g, rule_h, rule_i, rule_j, rule_k, rule_l, rule_m, rule_n, rule_o]
+def rule_p(ctx: Ctx) -> None:
+    """A type with empty content (attributes only) has no room for character data; a complexContent restriction of it must be empty too.  "Empty" is the
+    predicate is_empty() - no particles *and not mixed*; the truth value of the group says only "has particles", so a derived `mixed="true"` type without a model
+    group would pass and accept text its base rejects."""
+    rule = 'C14.p'
+    from .common import bool_atoms
+    f = ctx.idx.method('xmlschema.validators.complex_types.XsdComplexType', '_parse_complex_content_restriction')
+    ctx.analysed(f.qualname)
+    tests = [x for x in ast.walk(f.node) if isinstance(x, ast.If) and 'base_type.is_empty()' in bool_atoms(x.test)]
+    ctx.floor(rule, 'tests on an empty base type in _parse_complex_content_restriction', len(tests), 1)
+    for t in tests:
+        atoms = bool_atoms(t.test)
+        others = [a for a in atoms if a != 'base_type.is_empty()']
+        reports = any(isinstance(c.func, ast.Attribute) and c.func.attr == 'parse_error' for s_ in t.body for c in calls(s_))
+        ok = reports and any(a.endswith('.is_empty()') and a != 'base_type.is_empty()' for a in others) and \
+            not any(a in ('content', 'len(content)', 'self.content', 'content._group') for a in others)
+        ctx.ob(rule, f'_parse_complex_content_restriction: `{text(t.test)[:70]}` refuses every non-empty derivation of an empty base', f.loc(t), ok,
+               '' if ok else f'the derived side is tested with {others}: the truth value of a group is "has particles" - a restriction with mixed="true" and no model group is '
+               'accepted and <root xsi:type="Derived">some text</root> is valid although the base type has empty content', key='_parse_complex_content_restriction|empty-base')
+    ctx.explain('C14.p: the refusal guarded by `base_type.is_empty()` in _parse_complex_content_restriction tests the derived content with an is_empty() predicate, not with the truth '
+                'value / length of the group.')
+
+
+RULES = [rule_a, rule_b, rule_c, rule_d, rule_e, rule_f, rule_g, rule_h, rule_i, rule_j, rule_k, rule_l, rule_m, rule_n, rule_o, rule_p]
